@@ -27,7 +27,7 @@ COMMON = [
 
 FLAVOURS = {
     # compiler, compile flags, link flags
-    "asan": ("g++", ["-O1", "-fsanitize=address,undefined", "-fno-sanitize-recover=all"],
+    "asan": ("g++", ["-O1", "-fsanitize=address,undefined", "-fno-sanitize=shift-base", "-fno-sanitize-recover=all"],
              ["-fsanitize=address,undefined"]),
     "tsan": ("g++", ["-O1", "-fsanitize=thread"], ["-fsanitize=thread"]),
     "plain": ("g++", ["-O2"], []),
